@@ -11,18 +11,25 @@ import "fmt"
 
 const maxUnroll = 10
 
-func unrollSmallLoops(S *Store, sum *Summary) {
-	for round := 0; round < 4; round++ {
-		if !unrollOne(S, sum, sum.Top) {
+func unrollSmallLoops(S *Store, sum *Summary) { unrollLoops(S, sum, false) }
+
+// unrollLoopsWithEffects also unrolls tiny constant loops whose body calls and stores (a worker that rolls its
+// per-parameter blocks into `for _, k := range [...]int{3, 7} { ... }`).
+func unrollLoopsWithEffects(S *Store, sum *Summary) { unrollLoops(S, sum, true) }
+
+func unrollLoops(S *Store, sum *Summary, withEffects bool) {
+	for round := 0; round < 12; round++ {
+		if !unrollOne(S, sum, sum.Top, withEffects) {
 			break
 		}
 	}
 	resolveLiteralLoads(S, sum)
 	// the closed forms are selections: resolve what each event's own path condition already decides
 	restrictByGuard(S, sum.Top)
+	restrictLoopBodies(S, sum.Top)
 }
 
-func unrollable(l *LoopS) (int64, bool) {
+func unrollable(l *LoopS, withEffects bool) (int64, bool) {
 	if l.Bound == nil {
 		return 0, false
 	}
@@ -40,7 +47,13 @@ func unrollable(l *LoopS) (int64, bool) {
 		if e.Dead {
 			continue
 		}
-		if e.Kind != "load" {
+		switch e.Kind {
+		case "load":
+		case "call", "store":
+			if !withEffects {
+				okBody = false
+			}
+		default:
 			okBody = false
 		}
 	}
@@ -67,16 +80,16 @@ func unrollable(l *LoopS) (int64, bool) {
 	return b, true
 }
 
-func unrollOne(S *Store, sum *Summary, r *Region) bool {
+func unrollOne(S *Store, sum *Summary, r *Region, withEffects bool) bool {
 	for pos, it := range r.Items {
 		l, ok := it.(*LoopS)
 		if !ok {
 			continue
 		}
-		if unrollOne(S, sum, l.Body) {
+		if unrollOne(S, sum, l.Body, withEffects) {
 			return true
 		}
-		B, ok := unrollable(l)
+		B, ok := unrollable(l, withEffects)
 		if !ok {
 			continue
 		}
@@ -146,16 +159,25 @@ func unrollLoop(S *Store, l *LoopS, B int64) ([]interface{}, map[*Symbol]*Term) 
 			ne.Guard = g
 			ne.Loop = l.Parent
 			ne.Root = sb(e.Root)
+			ne.Val = sb(e.Val)
+			ne.Recv = sb(e.Recv)
+			ne.FnTerm = sb(e.FnTerm)
 			ne.Path = make([]*Term, len(e.Path))
 			for i := range e.Path {
 				ne.Path[i] = sb(e.Path[i])
 			}
-			nsym := S.NewSym(SRes, fmt.Sprintf("ld_u%d", k), e.Res.Ty)
-			nsym.Ev = &ne
-			nsym.Pos = e.Res.Pos
-			ne.Res = nsym
-			sub[e.Res] = S.SymTerm(nsym)
-			memo = map[*Term]*Term{} // the substitution grew
+			ne.Args = make([]*Term, len(e.Args))
+			for i := range e.Args {
+				ne.Args[i] = sb(e.Args[i])
+			}
+			if e.Res != nil {
+				nsym := S.NewSym(e.Res.Kind, fmt.Sprintf("%s_u%d", e.Kind, k), e.Res.Ty)
+				nsym.Ev = &ne
+				nsym.Pos = e.Res.Pos
+				ne.Res = nsym
+				sub[e.Res] = S.SymTerm(nsym)
+				memo = map[*Term]*Term{} // the substitution grew
+			}
 			items = append(items, &ne)
 		}
 		left := S.False
@@ -215,11 +237,21 @@ func resolveLiteralLoads(S *Store, sum *Summary) {
 	tables := map[*Symbol]map[int64]*cell{}
 	bad := map[*Symbol]bool{}
 	allocSeq := map[*Symbol]int{}
+	allocLoop := map[*Symbol]*LoopS{}
 	sum.Top.Events(func(e *Event, loops []*LoopS) {
 		if e.Kind == "alloc" && e.Res != nil {
 			allocSeq[e.Res] = e.Seq
+			if len(loops) > 0 {
+				allocLoop[e.Res] = loops[len(loops)-1]
+			}
 		}
 	})
+	innermost := func(loops []*LoopS) *LoopS {
+		if len(loops) == 0 {
+			return nil
+		}
+		return loops[len(loops)-1]
+	}
 	sum.Top.Events(func(e *Event, loops []*LoopS) {
 		if e.Kind != "store" || e.Root == nil || e.Root.K != KSym {
 			return
@@ -232,7 +264,8 @@ func resolveLiteralLoads(S *Store, sum *Summary) {
 		if len(e.Path) == 1 {
 			idx, okI = e.Path[0].IntVal()
 		}
-		if !okI || len(loops) > 0 || e.Val == nil || e.Val.K != KConst {
+		// written in the very iteration (or at the very level) that allocates it
+		if !okI || innermost(loops) != allocLoop[sy] || e.Val == nil || e.Val.K != KConst {
 			bad[sy] = true
 			return
 		}
@@ -264,13 +297,25 @@ func resolveLiteralLoads(S *Store, sum *Summary) {
 		}
 	})
 	sub := map[*Symbol]*Term{}
-	sum.Top.Events(func(e *Event, _ []*LoopS) {
+	sum.Top.Events(func(e *Event, loops []*LoopS) {
 		if e.Kind != "load" || e.Root == nil || e.Root.K != KSym || e.Res == nil || len(e.Path) != 1 {
 			return
 		}
 		t := tables[e.Root.Sym]
 		if t == nil || bad[e.Root.Sym] {
 			return
+		}
+		// read in the same iteration (at the same level or deeper) as the table was built
+		if al := allocLoop[e.Root.Sym]; al != nil {
+			inside := false
+			for _, l := range loops {
+				if l == al {
+					inside = true
+				}
+			}
+			if !inside {
+				return
+			}
 		}
 		idx, ok := e.Path[0].IntVal()
 		if !ok {
